@@ -918,7 +918,7 @@ func oddSubs(s Scenario) Scenario {
 		out := make([]Label, len(ls))
 		for i, l := range ls {
 			if l.Sub != "" {
-				l.Sub = l.Sub + "=q " + l.Sub + "/+%"
+				l.Sub = l.Sub + "=q " + l.Sub + "/+%2C%"
 			}
 			out[i] = l
 		}
